@@ -268,4 +268,5 @@ def hypothesis_chunk(args: tuple) -> dict:
             done.pop()
         agg['bad'] = {'spec': found.spec, 'result': found.result, 'sub': sub, 'index': state['n'], 'history': json.loads(json.dumps(campaign._history))}
     agg['wall'] = time.time() - t0
+    agg['wall_by_sub'][sub] += agg['wall']
     return agg
